@@ -505,11 +505,37 @@ class MayRaise:
         if left is not None and isinstance(getattr(node, 'op', None), ast.Mod):
             ln = self._type_names(left)
             if isinstance(left, (ast.Constant, ast.JoinedStr)) and isinstance(getattr(left, 'value', ''), str) or 'builtins.str' in ln:
-                return  # string formatting
+                # string formatting: total when the format is a literal whose conversions match the operand count; a format
+                # string that contains data (an f-string, a concatenation, a variable) can hold a stray `%` and then raises
+                # TypeError (not enough / not all arguments) or ValueError (unsupported format character)
+                lit = self._literal_format(left)
+                if lit is not None:
+                    import re as _re
+
+                    specs = _re.findall(r'%(?:\([^)]*\))?[#0\- +]*(?:\*|\d+)?(?:\.(?:\*|\d+))?[hlL]?(.)', lit)
+                    n_args = len(divisor.elts) if isinstance(divisor, ast.Tuple) else 1
+                    real = [c for c in specs if c != '%']
+                    if all(c in 'srdifxXoeEgGca' for c in real) and (len(real) == n_args or '%(' in lit):
+                        return
+                self._add_implicit(out, 'builtins.TypeError', node)
+                self._add_implicit(out, 'builtins.ValueError', node)
+                return
         okc, v = self.prog.try_fold(self._f.module, divisor)
         if okc and isinstance(v, (int, float)) and v != 0:
             return
         self._add_implicit(out, 'builtins.ZeroDivisionError', node)
+
+    def _literal_format(self, e: ast.AST) -> Optional[str]:
+        """The text of a format string that is a literal (adjacent / concatenated literals and module constants included)."""
+        if isinstance(e, ast.Constant) and isinstance(e.value, str):
+            return e.value
+        if isinstance(e, ast.BinOp) and isinstance(e.op, ast.Add):
+            a, b = self._literal_format(e.left), self._literal_format(e.right)
+            return a + b if a is not None and b is not None else None
+        if isinstance(e, (ast.Name, ast.Attribute)):
+            okc, v = self.prog.try_fold(self._f.module, e)
+            return v if okc and isinstance(v, str) else None
+        return None
 
     def _unpack_target(self, target: ast.AST, source: ast.AST, out: Dict[ExKey, Origin], elementwise: bool) -> None:
         if not isinstance(target, (ast.Tuple, ast.List)):
